@@ -233,6 +233,12 @@ def run_case(case, ctx):
         cy = rng.randint(loy, hiy)
     x = Fxp(cx, fx[0], fx[1], fx[2], raw=True)
     y = Fxp(cy, fy[0], fy[1], fy[2], raw=True)
+    if i % 4 == 0:
+        x = G.historied(Fxp, x, rng)[0]
+        y = G.historied(Fxp, y, rng)[0]
+        for cv in (x, y):
+            for f_ in (lambda: cv.get_val(), lambda: cv(), lambda: float(cv), lambda: int(cv), lambda: cv.astype(float), lambda: cv.astype(int), lambda: cv.raw(), lambda: cv.uraw(), lambda: bool(cv)):
+                _try(f_)
     vy = F(cy) * R.lsb(fy[2])
     rels = [operator.lt, operator.le, operator.eq, operator.ne, operator.gt, operator.ge]
     for r in rels:
